@@ -78,6 +78,16 @@ theorem isolated_turn_by_turn (key : List Msg → K) (hinj : ∀ a b, key a = ke
 
 end Cache
 
+/-- `_get_events_for_messages` continues from the longest proper prefix of the request that has a cache entry,
+    and converts exactly the remaining messages (declarative specification of `eventsFor`). -/
+theorem eventsFor_longest_prefix {K : Type} [DecidableEq K] {Ev : Type} (key : List Msg → K)
+    (conv : Bool → Msg → List Ev) (C : Cache K Ev) (msgs : List Msg) :
+    ∃ p ev, eventsFor key conv C msgs = ev ++ convertTail conv (msgs.drop p) ∧ p ≤ msgs.length - 1 ∧
+      (p = 0 → ev = []) ∧ (0 < p → find (key (msgs.take p)) C = some ev) ∧
+      (∀ q, p < q → q < msgs.length → find (key (msgs.take q)) C = none) := by
+  obtain ⟨h1, h2, h3, h4⟩ := lookupLongest_spec key C msgs (msgs.length - 1)
+  exact ⟨_, _, rfl, h1, h2, h3, fun q a b => h4 q a (by omega)⟩
+
 /-- The proposed key (`len(role):role len(text):text` per message, every role) is injective on all
     message lists over all strings. -/
 theorem key_injective : ∀ a b : List Msg, cacheKeyLP a = cacheKeyLP b → a = b :=
@@ -195,6 +205,47 @@ example : TurnByTurn (isoRuns (fun m : List Msg => m) convC turnW
       have e1 : ¬ (1 = c) := fun e => h1 e.symm
       simp [isoRuns, ofConv, runT, ChainedFrom, e0, e1]
 
+/-- The safe region of the key of the CURRENT source, stated positively: turn-by-turn conversations whose
+    histories alternate user / assistant and never contain ':' (neither in user texts nor in bot replies) are
+    isolated on a shared instance, for all interleavings — instance of `isolated_partial`. Everything outside
+    (a ':' in any text, two user messages in a row, context / event / exception messages) is the region of
+    the open finding `history-cache-key-collision`. -/
+theorem as_is_isolated_clean {Ev : Type} (conv : Bool → Msg → List Ev) (turn : List Ev → Msg × List Ev)
+    (s : List (Nat × List Msg))
+    (hclean : CleanRun (isoRuns cacheKeyAsIs conv turn s))
+    (htt : TurnByTurn (isoRuns cacheKeyAsIs conv turn s)) (c : Nat) :
+    ofConv c (runT cacheKeyAsIs conv turn [] s) = runT cacheKeyAsIs conv turn [] (ofConv c s) :=
+  isolated_partial cacheKeyAsIs conv turn s (injOn_of_clean _ hclean)
+    (compatible_of_turn_by_turn cacheKeyAsIs conv turn s htt) c
+
+/-- non-vacuity of `as_is_isolated_clean`: two identical turn-by-turn conversations, separator-free -/
+example : CleanRun (isoRuns cacheKeyAsIs convC turnW
+    [(0, [u ['a']]), (1, [u ['a']]), (1, [u ['a'], a ['b'], u ['x']]), (0, [u ['a'], a ['b'], u ['x']])]) ∧
+    TurnByTurn (isoRuns cacheKeyAsIs convC turnW
+    [(0, [u ['a']]), (1, [u ['a']]), (1, [u ['a'], a ['b'], u ['x']]), (0, [u ['a'], a ['b'], u ['x']])]) := by
+  constructor
+  · intro c x hx
+    by_cases h0 : c = 0
+    · subst h0
+      simp [isoRuns, ofConv, runT, serveStep, turnW] at hx
+      rcases hx with rfl | rfl <;> simp [altFrom, Step.hist, u, a, rUser, rAssistant]
+    · by_cases h1 : c = 1
+      · subst h1
+        simp [isoRuns, ofConv, runT, serveStep, turnW] at hx
+        rcases hx with rfl | rfl <;> simp [altFrom, Step.hist, u, a, rUser, rAssistant]
+      · have e0 : ¬ (0 = c) := fun e => h0 e.symm
+        have e1 : ¬ (1 = c) := fun e => h1 e.symm
+        simp [isoRuns, ofConv, runT, e0, e1] at hx
+  · intro c
+    by_cases h0 : c = 0
+    · subst h0
+      simp [isoRuns, ofConv, runT, serveStep, ChainedFrom, Step.hist, turnW]
+    · by_cases h1 : c = 1
+      · subst h1
+        simp [isoRuns, ofConv, runT, serveStep, ChainedFrom, Step.hist, turnW]
+      · have e0 : ¬ (0 = c) := fun e => h0 e.symm
+        have e1 : ¬ (1 = c) := fun e => h1 e.symm
+        simp [isoRuns, ofConv, runT, ChainedFrom, e0, e1]
 /-! ## LLM parameters -/
 
 open Params
@@ -288,44 +339,6 @@ theorem params_nested_ok_concrete (tasks : Nat → List (Nat × PVal)) (σ0 : St
 /-! ## context variables -/
 
 open Ctx
-
-theorem runCtx_frame {V : Type} (t : Nat) : ∀ (ops : List (Nat × Op V)) (ctxs ctxs' : Nat → Nat → V)
-    (log log' : List (Nat × Nat × V)), ctxs t = ctxs' t → log.filter (fun e => e.1 = t) = log' →
-    (runCtx ctxs log ops).2.filter (fun e => e.1 = t) = (runCtx ctxs' log' (ops.filter fun o => o.1 = t)).2 := by
-  intro ops
-  induction ops with
-  | nil => intro _ _ _ _ _ h; simpa [runCtx] using h
-  | cons o ops ih =>
-    intro ctxs ctxs' log log' hc hl
-    obtain ⟨t', op⟩ := o
-    by_cases ht : t' = t
-    · subst ht
-      cases op with
-      | set x v =>
-        simp only [runCtx, List.foldl_cons, stepCtx, List.filter_cons_of_pos, decide_true] at ih ⊢
-        apply ih
-        · simp [Params.upd, hc]
-        · exact hl
-      | get x =>
-        simp only [runCtx, List.foldl_cons, stepCtx, List.filter_cons_of_pos, decide_true] at ih ⊢
-        apply ih
-        · exact hc
-        · simp [List.filter_append, hl, hc]
-    · have hf : (List.filter (fun o : Nat × Op V => decide (o.1 = t)) ((t', op) :: ops)) = List.filter (fun o => decide (o.1 = t)) ops := by
-        simp [ht]
-      rw [hf]
-      cases op with
-      | set x v =>
-        simp only [runCtx, List.foldl_cons, stepCtx] at ih ⊢
-        apply ih
-        · have : t ≠ t' := fun e => ht e.symm
-          simp [Params.upd, this, hc]
-        · exact hl
-      | get x =>
-        simp only [runCtx, List.foldl_cons, stepCtx] at ih ⊢
-        apply ih
-        · exact hc
-        · simp [List.filter_append, hl, ht]
 
 /-- Per-task context copies never interfere: for every interleaving of `set`/`get` operations of any
     number of tasks, what task `t` reads is what it reads when its operations run alone. -/
